@@ -60,18 +60,83 @@ def decode_template(hexs):
     return out
 
 
+_STR_WRAPPERS = ('Deref::deref', 'String::as_str', 'AsRef::as_ref', 'Borrow::borrow', 'hint::must_use', 'fmt::format', 'String::as_ref')
+_APPENDERS = ('String::push_str', 'AddAssign::add_assign', 'Write::write_fmt', 'Write::write_str')
+
+
+def _string_piece(b, t):
+    """A term appended to the text: ('fmt', parts, [arg terms]) | ('lit', text) | ('val', term)."""
+    t = strip(t)
+    while isinstance(t, tuple) and t[0] == 'call' and len(t) == 3 and cname(t[1]) in _STR_WRAPPERS:
+        t = strip(t[2])
+    if isinstance(t, tuple) and t[0] == 'const' and t[1] == 'str':
+        return ('lit', t[2])
+    if isinstance(t, tuple) and t[0] == 'call' and cname(t[1]) == 'Arguments::new' and len(t) == 4:
+        tmpl, args = strip(t[2]), strip(t[3])
+        if isinstance(tmpl, tuple) and tmpl[0] == 'const' and tmpl[1] == 'bytes' and isinstance(args, tuple) and args[0] == 'agg' and args[1] == 'array':
+            return ('fmt', decode_template(tmpl[2]), [strip(x) for x in args[2:]])
+        return None
+    if isinstance(t, tuple) and t[0] == 'call' and cname(t[1]) == 'Arguments::from_str' and len(t) == 3:
+        c = strip(t[2])
+        if isinstance(c, tuple) and c[0] == 'const' and c[1] == 'str':
+            return ('lit', c[2])
+        return None
+    return ('val', t)
+
+
+def writer_pieces(ctx, b):
+    """The text the writer returns, as an ordered list of pieces.  Either the function returns one format!(..), or it builds
+    a String by appending (push_str / += / write! / writeln!) in straight-line code: then the append calls on the returned
+    local, which must be totally ordered by dominance, lie outside loops and be the only mutable uses of that local."""
+    sites = [(bi, t) for bi, t in b.calls() if cname(callee_name(t)) == 'Arguments::new']
+    if len(sites) == 1:
+        bi, t = sites[0]
+        ret = strip(b.return_term())
+        whole = _string_piece(b, ret)
+        if whole is not None and whole[0] == 'fmt':
+            return [whole]
+    ret_defs = b.defs().get(0, [])
+    ctx.require(len(ret_defs) == 1 and ret_defs[0][0] == 'st' and ret_defs[0][3]['rv']['k'] == 'use' and
+                not ret_defs[0][3]['rv']['op'].get('place', {}).get('proj', [1]), 'to_yaml returns one format!(..) or a String local built by appending')
+    R = ret_defs[0][3]['rv']['op']['place']['local']
+    mut_refs = {st['lhs']['local'] for i, j, st in b.stmts() if st['rv']['k'] == 'ref' and st['rv'].get('mut') and st['rv']['place']['local'] == R}
+    events = []
+    for bi, t in b.calls():
+        a0 = t['args'][0] if t['args'] else None
+        if a0 and a0.get('k') in ('move', 'copy') and not a0['place']['proj'] and a0['place']['local'] in mut_refs:
+            n = cname(callee_name(t))
+            ctx.require(n in _APPENDERS and len(t['args']) == 2, 'the text under construction is only appended to (found %s)' % n)
+            events.append((bi, t))
+            mut_refs.discard(a0['place']['local'])
+    ctx.require(not mut_refs and events, 'every mutable borrow of the text under construction is an append')
+    for x in range(len(events)):
+        ctx.require(not b.reaches(b.blocks[events[x][0]]['term'].get('target'), events[x][0]), 'appends lie outside loops')
+        for y in range(x + 1, len(events)):
+            ctx.require(b.dominates(events[x][0], events[y][0]) or b.dominates(events[y][0], events[x][0]), 'appends are totally ordered')
+    events.sort(key=lambda e: sum(1 for o in events if b.dominates(o[0], e[0])))
+    pieces = []
+    for bi, t in events:
+        p = _string_piece(b, b.op_term(t['args'][1], (bi, None)))
+        ctx.require(p is not None, 'appended value is a literal, a format!(..) or a string value')
+        pieces.append(p)
+    return pieces
+
+
 def writer_table(ctx, b):
     """-> {field: (key path tuple, precision, wrapper)}"""
     prog = ctx.prog
-    site = [(bi, t) for bi, t in b.calls() if cname(callee_name(t)) == 'Arguments::new']
-    ctx.require(len(site) == 1, 'single format_args! in to_yaml')
-    bi, t = site[0]
-    tmpl = strip(b.op_term(t['args'][0], (bi, None)))
-    ctx.require(isinstance(tmpl, tuple) and tmpl[0] == 'const' and tmpl[1] == 'bytes', 'format template constant')
-    parts = decode_template(tmpl[2])
-    args = strip(b.op_term(t['args'][1], (bi, None)))
-    ctx.require(isinstance(args, tuple) and args[0] == 'agg' and args[1] == 'array', 'format argument array')
-    arg_terms = [strip(x) for x in args[2:]]
+    parts = []
+    arg_terms = []
+    for p in writer_pieces(ctx, b):
+        if p[0] == 'lit':
+            parts.append(('lit', p[1]))
+        elif p[0] == 'val':
+            parts.append(('ph', len(arg_terms), None))
+            arg_terms.append(p[1])
+        else:
+            base = len(arg_terms)
+            parts += [x if x[0] == 'lit' else ('ph', base + x[1], x[2]) for x in p[1]]
+            arg_terms += p[2]
     text = ''
     for p in parts:
         text += p[1] if p[0] == 'lit' else '\x00%d\x00' % p[1]
@@ -172,6 +237,14 @@ def run(ctx):
                       '`%s` is written with `{}` (an integral value such as 0 prints as `0`, an Integer token) but the reader accepts only %s' % (
                           f, 'Real' if accepts_real else 'nothing numeric'), found=sorted(c for c in calls if c.startswith('Yaml::')), expected='as_f64 or as_i64',
                       detail='Real and Integer accepted')
+            # the scalar is printed in full: `{}` of the field itself (Display of f64 prints the shortest text that parses back
+            # to the same value); a precision or a width/flag changes the text, a computed argument changes the value
+            direct = isinstance(warg, tuple) and warg[0] == 'call' and len(warg) == 3 and cname(warg[1]).endswith('new_display') and \
+                isinstance(strip(warg[2]), tuple) and strip(warg[2])[0] == 'fld' and strip(warg[2])[2] == f and util.is_param(strip(warg[2])[1], 1)
+            plain = prec is None and wrap.strip() == '{}'
+            ctx.check(direct and plain, 'R19.2', f + '/printed-in-full', wr.where(0), wr.path,
+                      '`%s` must be written as `{}` of the field itself (found precision %s, text `%s`, argument %s): a rounded or decorated number does not read back equal' % (
+                          f, prec, wrap, show(warg, maxdepth=4)), found='%s / %s' % (wrap, show(warg, maxdepth=4)), detail='{} of self.' + f)
         if f == 'dof':
             ctx.check('Yaml::as_i64' in calls, 'R19.2', f, rd.where(0), rd.path, 'dof is written as an integer and must be read with as_i64', found=sorted(calls))
     _offsets(ctx, prog, wt, rd)
